@@ -55,8 +55,8 @@ struct Block { char* p; size_t bytes, align; uint8_t pat; };
 static thread_local std::vector<int>* g_dtor_log;
 struct Tracked { int id; ~Tracked() { g_dtor_log->push_back(id); } };
 
-enum { A_1_8, A_8_8, A_PM136, A_PM128, A_PM120, A_P, A_PP1, A_8_64, A_8_P, A_8_2P, A_0_1, A_PM1_1, A_2P_8, REG_DTOR, REG_DTOR_14, PAGES_13, PAGES_14, OVERSIZE_14, RELEASE, MOVE_TO_OTHER, NUM_OPS };
-static const char* names[] = {"alloc(1,8)", "alloc(8,8)", "alloc(p-136,8)", "alloc(p-128,8)", "alloc(p-120,8)", "alloc(p,8)", "alloc(p+1,8)", "alloc(8,64)", "alloc(8,p)", "alloc(8,2p)", "alloc(0,1)", "alloc(p-1,1)", "alloc(2p,8)",
+enum { A_1_8, A_8_8, A_PM136, A_PM128, A_PM120, A_P, A_PP1, A_8_64, A_8_P, A_8_2P, A_0_1, A_PM1_1, A_2P_8, A_PP1_1, A_2P_4, REG_DTOR, REG_DTOR_14, PAGES_13, PAGES_14, OVERSIZE_14, RELEASE, MOVE_TO_OTHER, NUM_OPS };
+static const char* names[] = {"alloc(1,8)", "alloc(8,8)", "alloc(p-136,8)", "alloc(p-128,8)", "alloc(p-120,8)", "alloc(p,8)", "alloc(p+1,8)", "alloc(8,64)", "alloc(8,p)", "alloc(8,2p)", "alloc(0,1)", "alloc(p-1,1)", "alloc(2p,8)", "alloc(p+1,1)", "alloc(2p,4)",
                               "register_destructor", "register_destructor x14", "alloc(p,8) x13", "alloc(p,8) x14", "alloc(p+1,8) x14", "release", "other=move(this)"};
 
 template <int PAGE>
@@ -113,7 +113,7 @@ struct MresSys {
     switch (op) {
       case A_1_8: return alloc(1, 8); case A_8_8: return alloc(8, 8); case A_PM136: return alloc(p - 136, 8); case A_PM128: return alloc(p - 128, 8); case A_PM120: return alloc(p - 120, 8);
       case A_P: return alloc(p, 8); case A_PP1: return alloc(p + 1, 8); case A_8_64: return alloc(8, 64); case A_8_P: return alloc(8, p); case A_8_2P: return alloc(8, 2 * p);
-      case A_0_1: return alloc(0, 1); case A_PM1_1: return alloc(p - 1, 1); case A_2P_8: return alloc(2 * p, 8);
+      case A_0_1: return alloc(0, 1); case A_PM1_1: return alloc(p - 1, 1); case A_2P_8: return alloc(2 * p, 8); case A_PP1_1: return alloc(p + 1, 1); case A_2P_4: return alloc(2 * p, 4);
       case REG_DTOR: return reg();
       case REG_DTOR_14: for (int i = 0; i < 14; i++) { e = reg(); if (!e.empty()) return e; } return "";
       case PAGES_13: for (int i = 0; i < 13; i++) { e = alloc(p, 8); if (!e.empty()) return e; } return "";
